@@ -490,7 +490,9 @@ fn read_olde_ecl(
         )).ignore();
     }
     if matches!(format.timeline_array_kind(), TimelineArrayKind::Pcb { .. }) {
-        num_timelines -= 1;  // in these games, that last entry points to the end of the file
+        // in these games, that last entry points to the end of the file
+        // (a file with no entries at all is malformed; it was already warned about above and simply has no timelines)
+        num_timelines = num_timelines.saturating_sub(1);
     }
 
     let subs = sub_offsets.into_iter().enumerate().map(|(index, sub_offset)| {
